@@ -12,7 +12,7 @@ def run(repo, res, tier):
         "keys that pass encode_assignment / encode_aggregation_block vs Token.is_parameter_name); W1 no text with "
         "significant white space reaches textwrap.wrap (taint of quoted text through encode_assignment; wrap flags); "
         "LEX1 number texts as str() writes them and date/times are lexed as one token (language model of the end-of-lexeme decision); D1 isinstance dispatch (subclass before superclass, a branch per loader type, numbers via str()). "
-        "R1-R4: the writer of temporal values consumes every field, can write both offset signs, pads fractions, and writes only zone suffixes its reader accepts. Not decided: equality of values, float text exactness, option combinations as such.")
+        "TB1/TB5: the block keywords of each grammar are a begin/end pair of its own tables and no begin keyword names both a group and an object. R1-R4: the writer of temporal values consumes every field, can write both offset signs, pads fractions, and writes only zone suffixes its reader accepts. Not decided: equality of values, float text exactness, option combinations as such.")
     res.assumptions = ["int()/float()/strptime acceptance models", "dateutil absent"]
     an = langrules.analyse(repo)
     langrules.rule_s1(repo, res, an, "own")
@@ -29,3 +29,8 @@ def run(repo, res, tier):
     # every text a time writer can return is a time for its own reader (all return paths, as languages)
     from .. import timerules as _tr
     _tr.rule_time_lang(repo, res)
+    # the block keywords a writer emits are paired by its own reader and select one container class: a begin keyword
+    # listed for both groups and objects makes the reader return the wrong kind of block
+    from .. import tablerules
+    tablerules.rule_tb1(repo, res)
+    tablerules.rule_tb5(repo, res)
